@@ -136,7 +136,7 @@ def check_tmpl(x: str, y: str, a_state: int, nounset: bool) -> bool:
     """
     V.enter()
     k = V.SHARD[0]
-    if TEMPLATES[k].count('%s') == 1:
+    if TEMPLATES[k].count('%s') == 1 or V.SHARD[2] == 0:
         y = ''
     return compare(fill(k, x, y), a_state, 'v', nounset, V.SHARD[3])
 
@@ -271,6 +271,7 @@ def check_ifexpr(s0: str, s1: str, a_state: int, a_val: str) -> bool:
 
 
 # ------------------------------------------------------------------ plan ----
+SLOW_TEMPLATES = (13, 14, 15, 16, 17, 19, 20, 23, 24)
 BOOLISH = (6, 7, 8, 9, 11, 12, 14, 18, 19, 21)   # skeletons that interpret a literal as boolean
 
 
@@ -292,6 +293,10 @@ def PLAN(tier):
     for k in range(len(TEMPLATES)):
         two = TEMPLATES[k].count('%s') == 2
         hx, hy = ((1, 1) if two else (2, 0)) if q else ((2, 2) if two else (3, 0))
+        if q and k == 20:
+            continue             # $(subst,a,%s,%s): split/join on symbolic text does not finish in the quick budget
+        if q and k in SLOW_TEMPLATES:
+            hx, hy = (1, 0)      # boolean interpretation (strip/lower on symbolic text) is slow: one symbolic char
         for sb in ((False, True) if 'sandbox' in TEMPLATES[k] else (False,)):
             P.append(dict(fn='check_tmpl', shard=[k, hx, hy if two else 0, sb],
                           timeout=150 if q else 900))
